@@ -9,7 +9,7 @@ import re
 
 from vt import core
 from vt.main import decide
-from translate import front_tr
+from translate import front_tr, kinds_tr
 from props import c23_gen
 
 CORPUS = os.path.join(core.VERIF, "corpus", "C23")
@@ -76,48 +76,57 @@ def q_rule(r):
     return "{| r_name := %s; r_params := %s; r_body := %s |}" % (cs(r["name"]), ps, q_choice(r["body"]))
 
 
+def q_exc(e):
+    return "{| x_name := %s; x_mro := [%s] |}" % (cs(e["name"]), "; ".join(cs(n) for n in e["mro"]))
+
+
 def q_input(ast):
-    if ast.get("syn"):
-        return "GSyntaxError"
     ss = "; ".join("SImport" if s["k"] == "import" else "(SReference %s %s)" % (cs(s["lang"]), "None" if s["alias"] is None else "(Some %s)" % cs(s["alias"]))
                    for s in ast["stmts"])
     return "(GTree {| t_stmts := [%s]; t_rules := [%s] |})" % (ss, "; ".join(q_rule(r) for r in ast["rules"]))
 
 
-DEC = {"ok": "DecOk", "index": "DecIndexError", "unicode": "DecUnicodeError"}
-EXT = {"notregistered": "ExtNotRegistered", "missing": "ExtMissing", "found": "ExtFound",
-       "builtin:found": "(ExtBuiltin true)", "builtin:missing": "(ExtBuiltin false)"}
-
-
 def q_oracles(orc):
-    """returns (coq term, list of oracle-assumption problems)"""
+    """returns (coq term, list of violated oracle assumptions = the hypotheses oracle_wf of the theorems)"""
     bad = []
     re_t, dec_t, ext_t = [], [], []
     for s, v in orc["re"]:
-        if v not in ("ok", "error"):
-            bad.append("regex oracle: %r -> %s" % (s, v))
-        re_t.append("(%s, %s)" % (cs(s), core.coq_bool(v == "ok")))
+        if v is not None:
+            if "Exception" not in v["mro"]:
+                bad.append("regex oracle: %r raises %s, not an Exception subclass" % (s, v["name"]))
+            re_t.append("(%s, Some %s)" % (cs(s), q_exc(v)))
     for s, v in orc["dec"]:
-        if v not in DEC:
-            bad.append("decode oracle: %r -> %s" % (s, v))
-            continue
-        if v != "ok":
-            dec_t.append("(%s, %s)" % (cs(s), DEC[v]))
+        if v is not None:
+            if "UnicodeDecodeError" not in v["mro"] and "IndexError" not in v["mro"]:
+                bad.append("decode oracle: %r raises %s" % (s, v["name"]))
+            dec_t.append("(%s, Some %s)" % (cs(s), q_exc(v)))
     for l, n, v in orc["ext"]:
-        if v not in EXT:
-            bad.append("registry oracle: %s.%s -> %s" % (l, n, v))
+        k = v["k"]
+        if k == "raises":
+            if "TextXError" not in v["exc"]["mro"]:
+                bad.append("registry oracle: language %s raises %s" % (l, v["exc"]["name"]))
+            t = "(ExtLangRaises %s)" % q_exc(v["exc"])
+        elif k == "builtin":
+            t = "(ExtBuiltin %s)" % core.coq_bool(v["found"])
+        elif k in ("found", "missing"):
+            t = "ExtFound" if k == "found" else "ExtMissing"
+        else:
+            bad.append("registry oracle: %s.%s lookup raises %s" % (l, n, v.get("exc", {}).get("name")))
             continue
-        ext_t.append("(%s, %s, %s)" % (cs(l), cs(n), EXT[v]))
-    re_t = [t for t in re_t if t.endswith("false)")]
+        ext_t.append("(%s, %s, %s)" % (cs(l), cs(n), t))
     return "(orc_of [%s] [%s] [%s])" % ("; ".join(re_t), "; ".join(dec_t), "; ".join(ext_t)), bad
 
 
-def coq_case(res):
+def q_user(case):
+    return "[%s]" % "; ".join(cs(n) for n in (case.get("user") or []))
+
+
+def coq_case(case, res):
+    if "parse_exc" in res:
+        return "show_case src_cfg (orc_of [] [] []) %s 1 (GParseRaises %s)" % (q_user(case), q_exc(res["parse_exc"])), []
     ast = res["ast"]
-    if ast.get("syn"):
-        return "show_case src_cfg (orc_of [] [] []) 1 GSyntaxError", []
     o, bad = q_oracles(res["oracle"])
-    return "show_case src_cfg %s %d %s" % (o, len(ast["rules"]) + FUEL_MARGIN, q_input(ast)), bad
+    return "show_case src_cfg %s %s %d %s" % (o, q_user(case), len(ast["rules"]) + FUEL_MARGIN, q_input(ast)), bad
 
 
 # ------------------------------------------------------------------ canonical implementation outcome
@@ -138,6 +147,8 @@ WHY = [
     ("SEM", r'assigned by "\?=" in rule .* can collect multiple values', "boolmany"),
     ("PLAIN", r"param split requires", "split"),
     ("REG", r"not registered", "registration"),
+    ("SEM", r"redefined imported rule .* cannot be replaced by a user class", "userredef"),
+    ("SEM", r"class is not used in the grammar", "userunused"),
 ]
 
 
@@ -215,6 +226,14 @@ def gen_cases(chk, n):
             kw = {"ignore_case": True}
         elif k == 2:
             kw = {"memoization": True}
+        elif k in (3, 4):
+            # user classes (classes=[...]): for some of the rules, sometimes one that no rule uses
+            names = re.findall(r"^\s*(\w+)\s*(?:\[[^\]]*\])?\s*:", c["text"], re.M)
+            pool = sorted(set(names)) or ["A"]
+            user = r.sample(pool, r.range(1, min(2, len(pool))))
+            if r.chance(0.25):
+                user.append(r.choice(["Ghost", "ID", "B2"]))
+            c["user"] = user
         c["kwargs"] = kw
         cases.append(c)
     return cases
@@ -223,7 +242,7 @@ def gen_cases(chk, n):
 def run_impl(cases):
     chunks = [cases[i::core.NPROC] for i in range(core.NPROC)]
     chunks = [c for c in chunks if c]
-    outs = core.run_impl_parallel("c23", [{"cases": [{"text": c["text"], "kwargs": c["kwargs"]} for c in ch]} for ch in chunks])
+    outs = core.run_impl_parallel("c23", [{"cases": [{"text": c["text"], "kwargs": c["kwargs"], "user": c.get("user")} for c in ch]} for ch in chunks])
     for ch, o in zip(chunks, outs):
         for c, x in zip(ch, o):
             c["res"] = x
@@ -236,8 +255,11 @@ def evaluate(chk, cases, tag="C23"):
     for c in cases:
         res = c["res"]
         c["tags"] = classify(c["text"])
-        if "ast" in res:
-            e, bad = coq_case(res)
+        if res.get("parse_exc", {}).get("name") == "RecursionError":
+            # the parser input of the model is "raises RecursionError": the hypothesis parse_wf of C23_total fails
+            c["tags"] = c["tags"] + ["interp-recursion-limit"]
+        if "ast" in res or "parse_exc" in res:
+            e, bad = coq_case(c, res)
             for b in bad:
                 disagreements.append({"case": c["text"], "impl": res["impl"], "model": "oracle assumption violated: " + b})
             exprs.append(e)
@@ -256,8 +278,10 @@ def evaluate(chk, cases, tag="C23"):
         mv = c.get("model")
         kind = c["kind"].split("+")[0].split(":")[0]
         ast = res.get("ast") or {}
-        nontrivial = bool(ast) and not ast.get("syn")
-        chk.count(json.dumps([c["text"], c["kwargs"]], sort_keys=True), nontrivial=nontrivial)
+        nontrivial = bool(ast)
+        chk.count(json.dumps([c["text"], c["kwargs"], c.get("user")], sort_keys=True), nontrivial=nontrivial)
+        if c.get("user"):
+            chk.stat("with user classes")
         chk.stat("impl " + ci)
         chk.stat("kind " + kind)
         if mv is not None:
@@ -273,14 +297,14 @@ def evaluate(chk, cases, tag="C23"):
                 disagreements.append({"case": c["text"], "kwargs": c["kwargs"], "kind": c["kind"], "impl": impl, "impl_canon": ci, "model": mv})
         bad = property_verdict(c, res)
         if bad:
-            failures.append({"case": {"text": c["text"], "kwargs": c["kwargs"], "kind": c["kind"]}, "impl": impl, "model": mv, "what": bad, "tags": c["tags"]})
+            failures.append({"case": {"text": c["text"], "kwargs": c["kwargs"], "user": c.get("user"), "kind": c["kind"]}, "impl": impl, "model": mv, "what": bad, "tags": c["tags"]})
         if chk.cov["evaluations"] % 97 == 5:
             chk.sample({"text": c["text"], "kind": c["kind"], "impl": ci, "model": mv})
     return failures, disagreements
 
 
 def run(chk):
-    chk.prove([front_tr.translate])
+    chk.prove([front_tr.translate, kinds_tr.translate])   # Model/Front.v runs C03's Model/Kinds.v (Gen/SrcKinds.v)
     n = 9000 if chk.thorough else 640
     cases = load_corpus() + gen_cases(chk, n)
     if chk.thorough:
@@ -327,13 +351,13 @@ def replay(rep):
     if "text" not in case:
         print(json.dumps(rep, indent=1))
         return 0
-    c = {"text": case["text"], "kwargs": case.get("kwargs") or {}, "kind": "replay"}
+    c = {"text": case["text"], "kwargs": case.get("kwargs") or {}, "user": case.get("user"), "kind": "replay"}
     run_impl([c])
     res = c["res"]
     print("grammar text: %r kwargs=%r" % (c["text"], c["kwargs"]))
     print("implementation:", canon_impl(res["impl"]), json.dumps(res["impl"]))
-    if "ast" in res:
-        e, bad = coq_case(res)
+    if "ast" in res or "parse_exc" in res:
+        e, bad = coq_case(c, res)
         front_tr.translate()
         vals, errs = core.coq_eval("C23replay", IMPORTS, [e])
         print("model:", vals[0] if vals else errs)
